@@ -137,9 +137,17 @@ func readRecordHeaderV4(reader *checksumByteReader) (payloadSizeUncompressed uin
 		return 0, 0, false, err
 	}
 
+	checksumStart := reader.Count()
 	expectedChecksum, err := binary.ReadUvarint(reader)
 	if err != nil {
 		return 0, 0, false, err
+	}
+
+	// the checksum does not cover itself: only its canonical (shortest) varint encoding is accepted, otherwise a set
+	// continuation bit on its last byte would go unnoticed and shift the payload
+	if reader.Count()-checksumStart != uvarintLen(expectedChecksum) {
+		return 0, 0, false,
+			fmt.Errorf("%w: checksum [%x] is not encoded canonically", HeaderChecksumMismatchErr, expectedChecksum)
 	}
 
 	if actualChecksum != expectedChecksum {
@@ -148,6 +156,15 @@ func readRecordHeaderV4(reader *checksumByteReader) (payloadSizeUncompressed uin
 	}
 
 	return payloadSizeUncompressed, payloadSizeCompressed, recordNil == 1, nil
+}
+
+func uvarintLen(x uint64) int {
+	n := 1
+	for x >= 0x80 {
+		x >>= 7
+		n++
+	}
+	return n
 }
 
 func allocateRecordBuffer(header *Header, payloadSizeUncompressed uint64, payloadSizeCompressed uint64) (uint64, []byte) {
